@@ -242,7 +242,9 @@ def run(ctx, widen=False):
     count = 0
     for dct in all_dicts(names, WEIGHTS, rng):
         # presence patterns: a few random subsets per dictionary (all subsets in thorough for 3 names)
-        subsets = [[(r, rng.choice(types)) for r in names + ["untouched"] if rng.random() < 0.7] for _ in range(3)]
+        # (dense, sparse and empty presence patterns: a dictionary is usually a whole gate library of which a routine uses a few entries)
+        pp = rng.choice([0.7, 0.7, 0.2, 0.0])
+        subsets = [[(r, rng.choice(types)) for r in names + ["untouched"] if rng.random() < pp] for _ in range(3)]
         cr = make_routine(subsets, rng)
         orders = [dct]
         if len(dct) <= 3:
@@ -275,7 +277,8 @@ def run(ctx, widen=False):
                 dct[a] = {}
         if not dct:
             continue
-        subsets = [[(r, rng.choice(types)) for r in NAMES + ["base1", "untouched"] if rng.random() < 0.6] for _ in range(3)]
+        pp = rng.choice([0.6, 0.6, 0.2, 0.0])
+        subsets = [[(r, rng.choice(types)) for r in NAMES + ["base1", "untouched"] if rng.random() < pp] for _ in range(3)]
         uncompiled = rng.random() < 0.3
         cr = make_routine(subsets, rng, compiled=not uncompiled)
         ctx.stats["random_on_" + ("uncompiled" if uncompiled else "compiled") + "_routine"] += 1
